@@ -316,6 +316,21 @@ def lattice(model, quick):
                             if chk.tobytes() != before.tobytes():
                                 errs.append(("unstructured_view:writes-elsewhere", ""))
                             a[sub_names[k - 1]][0] = before[sub_names[k - 1]][0]
+                        # slices of a larger array (offset start, steps, reversed): either refused or a
+                        # window onto exactly the rows that were passed in
+                        if n == 3:
+                            big = lp.numpy_array_to_live_points(np.arange(24.0).reshape(12, 2)[:, :1].repeat(d, axis=1) + np.arange(d) * 100.0, names, non_sampling_parameters=nsp)
+                            for sname, sl in (("[2:7]", slice(2, 7)), ("[::2]", slice(None, None, 2)), ("[1::2]", slice(1, None, 2)), ("[2:11:3]", slice(2, 11, 3)), ("[5::4]", slice(5, None, 4)), ("[::-1]", slice(None, None, -1)), ("[3:][::2]", None)):
+                                part = big[3:][::2] if sl is None else big[sl]
+                                try:
+                                    v = lp.unstructured_view(part, names)
+                                except Exception:
+                                    continue  # refusing a non-contiguous input is fine
+                                want = np.stack([part[nm_] for nm_ in names], axis=1)
+                                if v.shape != want.shape or bits(v) != bits(want):
+                                    errs.append(("unstructured_view:slice-shows-other-rows", f"slice {sname}: {v[:3].tolist()} vs {want[:3].tolist()}"))
+                                elif not np.shares_memory(v, big):
+                                    errs.append(("unstructured_view:slice-copy", sname))
     return ncases, errs
 
 
